@@ -14,12 +14,12 @@ Proof. destruct o; reflexivity. Qed.
 Section XopInd.
   Variable Pp : xop -> Prop.
   Hypothesis HOp : forall p, Pp (XOp p).
-  Hypothesis HPre : forall sd, Pp (XPre sd).
+  Hypothesis HPre : forall sd rf, Pp (XPre sd rf).
   Hypothesis HFrame : forall body keep, Forall Pp body -> Pp (XFrame body keep).
   Fixpoint xop_ind2 (o : xop) : Pp o :=
     match o with
     | XOp p => HOp p
-    | XPre sd => HPre sd
+    | XPre sd rf => HPre sd rf
     | XFrame body keep =>
         HFrame body keep
           ((fix go (l : list xop) : Forall Pp l :=
@@ -239,52 +239,39 @@ Section Run.
       + right. apply B6. exact S1.
   Qed.
 
-  (** one precompile call: flush, possibly a bank send with the two mirror writes — or no change at all when
-      the flush, or the bank, refuses *)
-  Lemma xpre_ok bsend s s1 net : Jst s -> xpre true c U bsend s = Some (s1, net) -> step_ok s s1 net.
+  (** the StateDB balances agree with the cache-context bank (true right after a flush, kept by every mirrored send) *)
+  Definition InSync (s : xst) : Prop := forall a, In a U -> a <> M -> bal (s_cb s) a = to_native (s_wei s a).
+
+  (** one bank send of a precompile body with its two mirror writes *)
+  Lemma send_sync_ok s sn x y n cb2 : Jst s -> InSync s -> s_snap s = Some sn ->
+    In x U -> In y U -> x <> M -> y <> M -> send (s_cb s) x y n = Some cb2 ->
+    let s' := {| s_wei := upd (upd (s_wei s) x (to_wei (bal cb2 x))) y (to_wei (bal cb2 y)); s_cb := cb2; s_snap := s_snap s |} in
+    step_ok s s' [OTransfer x y (to_wei n)] /\ InSync s'.
   Proof.
-    intros Hs H. pose proof Hs as [HJ [HJs Hw]]. unfold xpre in H. fold M in H.
-    destruct (commit2 c U (s_wei s) (s_cb s)) as [cb1 ok] eqn:Ec.
-    destruct ok; cbn [negb] in H.
-    2:{ inversion H; subst. apply step_same; auto. }
-    destruct (J_commit2 _ _ _ HJ Hw Ec) as [HJ1 Hsync].
-    set (snap1 := match s_snap s with Some sn => Some sn | None => Some (s_cb s) end) in *.
-    assert (Hsnap1 : forall sn, snap1 = Some sn -> J sn).
-    { intros sn E. unfold snap1 in E. destruct (s_snap s) eqn:Es; inversion E; subst; auto. }
-    assert (Hd1 : forall sn, s_snap s = Some sn -> snap1 = Some sn) by (intros sn E; unfold snap1; rewrite E; reflexivity).
-    assert (Hd2 : s_snap s = None -> snap1 = Some (s_cb s)) by (intro E; unfold snap1; rewrite E; reflexivity).
-    destruct bsend as [[[x y] n]|].
-    2:{ inversion H; subst. unfold step_ok, Jst. cbn [s_wei s_cb s_snap].
-        split; [split; [exact HJ1|split; [exact Hsnap1|exact Hw]]|]. split; [lia|]. split; [auto|].
-        split; [intros _ Hd; split; [exact Hd|reflexivity]|]. split; [reflexivity|]. split; [exact Hd1|].
-        intro Hn. right. apply Hd2. exact Hn. }
-    destruct (memb x U && memb y U && negb (Nat.eqb x M) && negb (Nat.eqb y M)) eqn:Eg; [|discriminate].
-    apply andb_true_iff in Eg as [Eg G4]. apply andb_true_iff in Eg as [Eg G3]. apply andb_true_iff in Eg as [G1 G2].
-    apply memb_In in G1. apply memb_In in G2. apply negb_true_iff in G3. apply negb_true_iff in G4.
-    apply Nat.eqb_neq in G3. apply Nat.eqb_neq in G4.
-    destruct ((n <=? 0) || is_blocked c y || (bal cb1 x <? n)) eqn:Er.
-    { inversion H; subst. apply step_same; auto. }
-    apply orb_false_iff in Er as [Er R3]. apply orb_false_iff in Er as [R1 _].
-    apply Z.leb_gt in R1. apply Z.ltb_ge in R3.
-    destruct (send cb1 x y n) as [cb2|] eqn:Es; [|discriminate].
-    inversion H; subst s1 net. clear H.
-    pose proof (J_send _ _ _ _ _ HJ1 G1 G2 G3 G4 Es) as HJ2. pose proof HJ2 as [N2 _].
+    intros Hs Hsync Hsn G1 G2 G3 G4 Es. pose proof Hs as [HJ [HJs Hw]].
+    pose proof (J_send _ _ _ _ _ HJ G1 G2 G3 G4 Es) as HJ2. pose proof HJ2 as [N2 _].
     pose proof (send_spec _ _ _ _ _ Es) as [_ [_ Hbal]]. cbv zeta in Hbal.
     pose proof (Hsync x G1 G3) as Sx. pose proof (Hsync y G2 G4) as Sy.
-    (* the two mirrored balances *)
     assert (Bx : x <> y -> bal cb2 x = to_native (s_wei s x) - n).
     { intro Hxy. rewrite Hbal. rewrite upd_other by assumption. rewrite upd_same. lia. }
     assert (By : x <> y -> bal cb2 y = to_native (s_wei s y) + n).
     { intro Hxy. rewrite Hbal. rewrite upd_same. rewrite upd_other by auto. lia. }
     assert (Bxx : x = y -> bal cb2 x = to_native (s_wei s x)).
     { intro Hxy. subst y. rewrite Hbal. rewrite upd_same. rewrite upd_same. lia. }
+    cbv zeta.
     set (w1 := upd (s_wei s) x (to_wei (bal cb2 x))) in *.
     set (w2 := upd w1 y (to_wei (bal cb2 y))) in *.
     assert (Hsum : sumU w2 U = sumU (s_wei s) U - s_wei s x + to_wei (bal cb2 x) - w1 y + to_wei (bal cb2 y)).
     { unfold w2. rewrite sumU_upd_in by assumption. unfold w1 at 1. rewrite sumU_upd_in by assumption. lia. }
     pose proof (to_wei_native_le (s_wei s x)) as Lx. pose proof (to_wei_native_le (s_wei s y)) as Ly.
+    split.
+    2:{ intros a Ha HaM. cbn [s_cb s_wei]. unfold w2, w1.
+        destruct (Nat.eq_dec a y) as [->|Hay]; [rewrite upd_same; symmetry; apply to_native_to_wei|].
+        rewrite upd_other by assumption.
+        destruct (Nat.eq_dec a x) as [->|Hax]; [rewrite upd_same; symmetry; apply to_native_to_wei|].
+        rewrite upd_other by assumption. rewrite Hbal. rewrite !upd_other by assumption. apply Hsync; assumption. }
     unfold step_ok, Jst. cbn [s_wei s_cb s_snap]. fold w1 w2.
-    split; [split; [exact HJ2|split; [exact Hsnap1|]]|].
+    split; [split; [exact HJ2|split; [exact HJs|]]|].
     { intro a. unfold w2, w1, upd. pose proof (N2 x). pose proof (N2 y). pose proof (Hw a). pose proof WEI_pos.
       unfold to_wei. destruct (Nat.eqb a y), (Nat.eqb a x); nia. }
     split; [|split; [|split; [|split; [|split]]]]; auto.
@@ -300,6 +287,60 @@ Section Run.
         * subst y. unfold w1. rewrite upd_same. rewrite (Bxx eq_refl). lia.
         * unfold w1. rewrite upd_other by auto. rewrite (Bx Hxy), (By Hxy). unfold to_wei in *. lia.
     - cbn [existsb op_touches]. apply Nat.eqb_neq in G3. apply Nat.eqb_neq in G4. rewrite G3, G4. reflexivity.
+    - intro Hn. rewrite Hsn in Hn. discriminate.
+  Qed.
+
+  (** the bank sends of one precompile body (FunToken.bankMsgSend: one; Wasm.execute: funds and dispatched sends) *)
+  Lemma xsends_ok l : forall s s2 net sn, Jst s -> InSync s -> s_snap s = Some sn ->
+    xsends c U l s = XDone s2 net -> step_ok s s2 net.
+  Proof.
+    induction l as [|[[x y] n] r IH]; intros s s2 net sn Hs Hsync Hsn H; cbn [xsends] in H.
+    - inversion H; subst. apply step_same; auto.
+    - fold M in H.
+      destruct (memb x U && memb y U && negb (Nat.eqb x M) && negb (Nat.eqb y M)) eqn:Eg; [|discriminate].
+      apply andb_true_iff in Eg as [Eg G4]. apply andb_true_iff in Eg as [Eg G3]. apply andb_true_iff in Eg as [G1 G2].
+      apply memb_In in G1. apply memb_In in G2. apply negb_true_iff in G3. apply negb_true_iff in G4.
+      apply Nat.eqb_neq in G3. apply Nat.eqb_neq in G4.
+      destruct ((n <=? 0) || is_blocked c y || (bal (s_cb s) x <? n)); [discriminate|].
+      destruct (send (s_cb s) x y n) as [cb2|] eqn:Es; [|discriminate].
+      destruct (send_sync_ok s sn x y n cb2 Hs Hsync Hsn G1 G2 G3 G4 Es) as [S1 Sy1]. cbv zeta in S1, Sy1.
+      set (s' := {| s_wei := upd (upd (s_wei s) x (to_wei (bal cb2 x))) y (to_wei (bal cb2 y)); s_cb := cb2; s_snap := s_snap s |}) in *.
+      destruct (xsends c U r s') as [| |s3 n3] eqn:Er; try discriminate.
+      inversion H; subst s3 net. clear H. pose proof S1 as [Hs' _].
+      change (OTransfer x y (to_wei n) :: n3) with ([OTransfer x y (to_wei n)] ++ n3).
+      eapply step_trans; [exact S1|]. eapply (IH s' s2 n3 sn); auto.
+  Qed.
+
+  (** one precompile call: flush, then the sends of its body with their mirror writes — or no change at all when
+      the flush fails, the bank refuses a send or the chain refuses a dispatched message *)
+  Lemma xpre_ok sends refuse s s1 net : Jst s -> xpre true c U sends refuse s = Some (s1, net) -> step_ok s s1 net.
+  Proof.
+    intros Hs H. pose proof Hs as [HJ [HJs Hw]]. unfold xpre in H.
+    destruct (commit2 c U (s_wei s) (s_cb s)) as [cb1 ok] eqn:Ec.
+    destruct ok; cbn [negb] in H.
+    2:{ inversion H; subst. apply step_same; auto. }
+    destruct (J_commit2 _ _ _ HJ Hw Ec) as [HJ1 Hsync].
+    set (snap1 := match s_snap s with Some sn => Some sn | None => Some (s_cb s) end) in *.
+    assert (Hsnap1 : forall sn, snap1 = Some sn -> J sn).
+    { intros sn E. unfold snap1 in E. destruct (s_snap s) eqn:Es; inversion E; subst; auto. }
+    assert (Hd1 : forall sn, s_snap s = Some sn -> snap1 = Some sn) by (intros sn E; unfold snap1; rewrite E; reflexivity).
+    assert (Hd2 : s_snap s = None -> snap1 = Some (s_cb s)) by (intro E; unfold snap1; rewrite E; reflexivity).
+    assert (Hsome : exists sn, snap1 = Some sn) by (unfold snap1; destruct (s_snap s); eauto).
+    destruct Hsome as [sn Hsn].
+    set (s' := {| s_wei := s_wei s; s_cb := cb1; s_snap := snap1 |}) in *.
+    assert (Hflush : step_ok s s' []).
+    { unfold step_ok, Jst, s'. cbn [s_wei s_cb s_snap].
+      split; [split; [exact HJ1|split; [exact Hsnap1|exact Hw]]|]. split; [lia|]. split; [auto|].
+      split; [intros _ Hd; split; [exact Hd|reflexivity]|]. split; [reflexivity|]. split; [exact Hd1|].
+      intro Hn. right. apply Hd2. exact Hn. }
+    pose proof Hflush as [Hs' _].
+    destruct (xsends c U sends s') as [| |s2 n2] eqn:Ex; [discriminate| |].
+    { inversion H; subst. apply step_same; auto. }
+    destruct refuse.
+    { inversion H; subst. apply step_same; auto. }
+    inversion H; subst s1 net. clear H.
+    change n2 with ([] ++ n2). eapply step_trans; [exact Hflush|].
+    eapply (xsends_ok sends s' s2 n2 sn); auto.
   Qed.
 
   Lemma xexecs_ok body : Forall (fun o => forall s s1 net, Jst s -> xexec true c U o s = Some (s1, net) -> step_ok s s1 net) body ->
@@ -316,7 +357,7 @@ Section Run.
   (** every op of a script, at any depth *)
   Theorem xexec_ok o : forall s s1 net, Jst s -> xexec true c U o s = Some (s1, net) -> step_ok s s1 net.
   Proof.
-    induction o as [p|sd|body keep IH] using xop_ind2; intros s s1 net Hs H.
+    induction o as [p|sd rf|body keep IH] using xop_ind2; intros s s1 net Hs H.
     - cbn [xexec] in H. fold M in H. destruct (op_uses M p) eqn:Em; [discriminate|]. rewrite op_uses_touches in Em.
       pose proof Hs as [HJ [HJs Hw]].
       destruct (apply_op U (s_wei s) p) as [w'|] eqn:Ea.
@@ -362,10 +403,21 @@ Section Run.
     destruct A7 as [[N C]|S]; [rewrite N; exact C|rewrite S; reflexivity].
   Qed.
 
+  (** a precompile call that the chain refuses (its body dispatches MsgConvertCoinToEvm / MsgCreateFunToken /
+      MsgEthereumTx while the EVM state transition is running) has no effect at all, whatever its bank sends did *)
+  Theorem refused_call_invisible sends s s1 net :
+    xpre true c U sends true s = Some (s1, net) ->
+    net = [] /\ s_wei s1 = s_wei s /\ s_cb s1 = s_cb s /\ s_snap s1 = s_snap s.
+  Proof.
+    intro H. unfold xpre in H. destruct (commit2 c U (s_wei s) (s_cb s)) as [cb1 ok].
+    destruct ok; cbn [negb] in H; [|inversion H; subst; auto].
+    destruct (xsends _ _ _ _); [discriminate|inversion H; subst; auto|inversion H; subst; auto].
+  Qed.
+
   (** a precompile call whose flush fails half-way (a blocked account is owed a credit: SetAccBalance has minted, the
       bank refuses to pass it on) has no effect at all *)
-  Theorem failed_flush_invisible bsend s s1 net :
-    xpre true c U bsend s = Some (s1, net) -> snd (commit2 c U (s_wei s) (s_cb s)) = false ->
+  Theorem failed_flush_invisible sends refuse s s1 net :
+    xpre true c U sends refuse s = Some (s1, net) -> snd (commit2 c U (s_wei s) (s_cb s)) = false ->
     net = [] /\ s_wei s1 = s_wei s /\ s_cb s1 = s_cb s /\ s_snap s1 = s_snap s.
   Proof.
     intros H Hf. unfold xpre in H. destruct (commit2 c U (s_wei s) (s_cb s)) as [cb1 ok] eqn:Ec.
